@@ -231,6 +231,7 @@ func builds() []Op {
 		b("build:mid", buildOpts{Target: tMid}),
 		b("build:gen", buildOpts{Target: tGen}),
 		b("build:leaf", buildOpts{Target: tLeaf}),
+		b("build:top(process started in misc/)", buildOpts{Target: tTop, ChildCwd: "misc"}),
 		b("build:top:always", buildOpts{Target: tTop, Always: true}),
 		b("build:other", buildOpts{Target: tOther}),
 		b("build:colon", buildOpts{Target: tColon}),
@@ -271,6 +272,8 @@ func focused(prop string, thorough bool) []focus {
 			{[]string{"fail:mid", "edit:dir/x.txt", "build:mid", "build:top"}, 8 + d},
 			{[]string{"edit:pkg/b.txt", "edit:src/a.txt", "build:gen+top(one load)", "build:leaf+top(one load)", "build:mid+top(one load)", "build:top"}, 5 + d},
 			{[]string{"dep:diamond", "edit:src/a.txt", "code:helper", "build:leaf", "build:mid", "build:top"}, 6 + d},
+			// a build started from a subdirectory that holds files named like the declared outputs
+			{[]string{"delete:gen/g.txt", "edit:src/a.txt", "build:top(process started in misc/)", "build:mid"}, 4 + d},
 			// builds interrupted by the death of the process inside a body
 			{[]string{"delete:gen/g.txt", "edit:src/a.txt", "code:helper", "interrupt:build:gen(dies between gen's two outputs)", "interrupt:build:mid(dies in mid's body)", "build:mid", "build:top"}, 5 + d},
 			// edits between values that compare equal but can be told apart by the function
@@ -332,7 +335,7 @@ func alphabet(prop string, thorough bool) []Op {
 		// pass (C18 second pass, C05)
 		// an injected record-write fault hits whichever targets happen to be saving at that moment:
 		// it belongs to the protocol check only (C18), whose oracle does not depend on who was hit
-		if strings.HasPrefix(o.Name, "interrupt:") && prop != "C01" {
+		if (strings.HasPrefix(o.Name, "interrupt:") || strings.Contains(o.Name, "(process started in")) && prop != "C01" {
 			continue // interrupted builds: C01 here, every crash point in C03
 		}
 		if (strings.Contains(o.Name, "(one load)") || strings.HasPrefix(o.Name, "session:")) && (prop == "C02" || prop == "C18") {
@@ -443,6 +446,9 @@ func (x *searcher) withRoot(f func(root string)) {
 
 // runBuild materialises state s and performs one build-type operation.
 func (x *searcher) runBuild(s *State, o buildOpts) *buildResult {
+	if o.ChildCwd != "" {
+		return x.childBuild(s, o)
+	}
 	var res *buildResult
 	x.withRoot(func(root string) {
 		writeTree(root, s.files())
@@ -767,7 +773,7 @@ func main() {
 	}
 	ops := alphabet(*fProp, r.Thorough())
 	depth := 5
-	if len(ops) <= 16 && *fProp != "C18" {
+	if (len(ops) <= 12 || *fProp == "C14") && *fProp != "C18" {
 		depth = 6
 	}
 	if r.Thorough() {
